@@ -11,6 +11,7 @@ extern "Rust" {
     fn fi_verif_replay_oneshot_bc(name: &str, cfg: u32, p: u32, s: &mut common::ScriptSrc<'_>) -> bool;
     fn fi_verif_replay_state(name: &str, cfg: u32, p: u32, s: &mut common::ScriptSrc<'_>) -> bool;
     fn fi_verif_replay_timer(name: &str, cfg: u32, p: u32, s: &mut common::ScriptSrc<'_>) -> bool;
+    fn fi_verif_replay_mpmc(name: &str, cfg: u32, p: u32, s: &mut common::ScriptSrc<'_>) -> bool;
 }
 
 fn replay_dispatch(name: &str, cfg: u32, p: u32, s: &mut common::ScriptSrc<'_>) -> bool {
@@ -23,6 +24,7 @@ fn replay_dispatch(name: &str, cfg: u32, p: u32, s: &mut common::ScriptSrc<'_>) 
             || fi_verif_replay_oneshot_bc(name, cfg, p, s)
             || fi_verif_replay_state(name, cfg, p, s)
             || fi_verif_replay_timer(name, cfg, p, s)
+            || fi_verif_replay_mpmc(name, cfg, p, s)
             || life::replay(name, cfg, p, s)
     }
 }
